@@ -4,8 +4,10 @@ import (
 	"context"
 	"encoding/json"
 	"fmt"
+	"runtime"
 	"sort"
 	"sync"
+	"sync/atomic"
 	"testing"
 	"testing/synctest"
 	"time"
@@ -145,7 +147,9 @@ func runTimerScenario(t *testing.T, d *sim.D) {
 			if len(d.Steps) >= int(d.Cfg.Get("steps", 12)) {
 				return nil
 			}
-			switch r.Weighted(6, 4, 5, 2, 1) {
+			switch r.Weighted(6, 4, 5, 2, 1, 2) {
+			case 5:
+				return &sim.Step{Op: "burst", A: []int64{int64(1 + r.Intn(6))}}
 			case 0:
 				return &sim.Step{Op: "arm", A: []int64{int64(r.Weighted(8, 2, 1))}}
 			case 1:
@@ -196,6 +200,49 @@ func runTimerScenario(t *testing.T, d *sim.D) {
 						d.Fault(fmt.Sprintf("advance-to-deadline%+dms", s.Arg(0)))
 					}
 					synctest.Wait()
+				}
+			case "burst":
+				// A late operator: the deadline of round r has already passed when it is armed, and
+				// round r+1 is armed right away, before the waiter of round r has run. The outcome in
+				// a defective timer depends on the runtime's (unseedable) select choice, so the step
+				// runs 16 independent trials on fresh timers and only their disjunction is logged.
+				// Judged with one P only (the workers' setting): with several Ps the waiter can
+				// legitimately run between the two armings.
+				stale := 0
+				for trial := 0; trial < 16 && runtime.GOMAXPROCS(0) == 1; trial++ {
+					var seq atomic.Int64
+					var bmu sync.Mutex
+					type ev struct {
+						round specqbft.Round
+						seq   int64
+					}
+					var got []ev
+					bctx, bcancel := context.WithCancel(context.Background())
+					brt := roundtimer.New(bctx, net, role, func(r specqbft.Round) {
+						bmu.Lock()
+						got = append(got, ev{r, seq.Add(1)})
+						bmu.Unlock()
+					})
+					r1 := specqbft.Round(s.Arg(0))
+					past := height - 40 // every deadline of that slot is long gone
+					brt.TimeoutForRound(past, r1)
+					brt.TimeoutForRound(past, r1+1)
+					armed2 := seq.Add(1)
+					synctest.Wait()
+					bmu.Lock()
+					for _, e := range got {
+						if e.round == r1 && e.seq > armed2 {
+							stale++
+						}
+					}
+					bmu.Unlock()
+					bcancel()
+					synctest.Wait()
+				}
+				d.Fault("burst-re-arm-after-expiry")
+				d.Logf("burst round=%d stale=%v", s.Arg(0), stale > 0)
+				if stale > 0 {
+					d.Violate("stale-round-callback", "burst-re-arm", "round %d was armed after its deadline and round %d right after it; in at least one of 16 trials the callback still fired for round %d after round %d had been armed", s.Arg(0), s.Arg(0)+1, s.Arg(0), s.Arg(0)+1)
 				}
 			case "swap":
 				curHandler++
